@@ -327,14 +327,14 @@ def _c16_stages0(tier):
     for t in nthr:
         for nested in ((1, 2) if tier == "thorough" or t == 3 else (1,)):
             env = {"OMP_NUM_THREADS": str(t), "OMP_MAX_ACTIVE_LEVELS": str(nested), "OMP_NESTED": "true" if nested > 1 else "false"}
-            st.append(S("host-gomp-asan", "func", ["--fam", OMP_FAM, "--mindim", "1100"], (14, 1500), (220, 2600), env=env, timeout=900))
+            st.append(S("host-gomp-asan", "func", ["--fam", OMP_FAM, "--mindim", "1100"], (14, 1500), (120, 2600), env=env, timeout=900))
     # small triple: the recursion (Strassen inside the four mp sections) is deep here
     for t in ([2, 4, 7] if tier == "thorough" else [4]):
-        st.append(S("small-gomp-asan", "func", ["--fam", OMP_FAM], (150, 700), (4000, 1300), env={"OMP_NUM_THREADS": str(t)}, timeout=900))
+        st.append(S("small-gomp-asan", "func", ["--fam", OMP_FAM], (150, 700), (2500, 1300), env={"OMP_NUM_THREADS": str(t)}, timeout=900))
     # the multi-core front ends themselves (quadrant sections + remainder strips), small cutoffs so that they split
     MP = "mzd_mul_mp,mzd_addmul_mp"
     for t in ([2, 3, 4, 8, 16] if tier == "thorough" else [2, 4, 8]):
-        st.append(S("small-gomp-asan", "func", ["--ops", MP], (260, 700), (3000, 1300), env={"OMP_NUM_THREADS": str(t)}, timeout=600))
+        st.append(S("small-gomp-asan", "func", ["--ops", MP], (260, 700), (2000, 1300), env={"OMP_NUM_THREADS": str(t)}, timeout=600))
     # races inside parallel regions: clang + libomp + Archer
     for t in ([2, 4, 16] if tier == "thorough" else [4, 16]):
         env = {"OMP_NUM_THREADS": str(t), "OMP_TOOL_LIBRARIES": "/usr/lib/llvm-14/lib/libarcher.so",
